@@ -143,6 +143,15 @@ type runner struct {
 	wHeight   int32
 	fakeCtr   int
 	published map[wire.OutPoint]string // inputs of created transactions that were published and are still known
+
+	// the BACKEND's side of the story, from the fake's own record of SendRawTransaction calls (backend.go)
+	backend map[chainhash.Hash]*wire.MsgTx // transactions the backend accepted (or already had) and still has
+	refused map[chainhash.Hash]bool        // transactions the backend refused last time / that lost an ancestor
+	nCalls  int                            // calls of r.fc already absorbed
+
+	// wallet lock state as the harness commanded it (wlock / wunlock / wexpire), independent of the wallet's own flag
+	wLocked   bool
+	lockTimer chan time.Time // the armed unlock timeout, nil if none
 }
 
 func (r *runner) Close() {
@@ -172,6 +181,11 @@ func (r *runner) reset() error {
 	r.userLock = map[wire.OutPoint]bool{}
 	r.leases = map[wire.OutPoint]lease{}
 	r.published = map[wire.OutPoint]string{}
+	r.backend = map[chainhash.Hash]*wire.MsgTx{}
+	r.refused = map[chainhash.Hash]bool{}
+	r.nCalls = 0
+	r.wLocked = false
+	r.lockTimer = nil
 	r.pending = 0
 	r.now = 1000
 	r.wHeight = baseHeight
@@ -208,6 +222,7 @@ func (r *runner) attach() error {
 		time.Sleep(200 * time.Microsecond)
 	}
 	r.fc.notify()
+	r.wLocked, r.lockTimer = false, nil
 	return r.w.Unlock(privPass, nil)
 }
 
@@ -485,6 +500,8 @@ func (r *runner) Exec(op string) (string, string) {
 		r.now += int64(n)
 		r.setNow()
 		return fmt.Sprintf("ok now=%d", r.now), ""
+	case "wlock", "wunlock", "wexpire":
+		return r.opWalletLock(kind, kv)
 	case "create":
 		return r.opCreate(kv)
 	case "publish":
@@ -655,6 +672,7 @@ func (r *runner) opBlock(kv map[string]string) (string, string) {
 		// leases on its inputs end (C12).
 		ti.height = h
 		ti.known = true
+		r.backendMined(ti.tx, ti.hash)
 		for _, in := range ti.tx.TxIn {
 			delete(r.leases, in.PreviousOutPoint)
 			for _, n := range r.order {
@@ -706,6 +724,7 @@ func (r *runner) opReorg(kv map[string]string) (string, string) {
 	for _, n := range deadCoinbases {
 		// a coinbase of a disconnected block can never be valid again; what spent it goes with it
 		r.forget(n)
+		r.backendDrop(r.txs[n].hash)
 	}
 	r.wHeight = newTip
 	return fmt.Sprintf("ok h=%d", newTip), ""
@@ -859,7 +878,10 @@ func (r *runner) ineligible(c *coin, q *createReq) string {
 func classifyCreateErr(err error) string {
 	var ise txauthor.InputSourceError
 	var rpcErr chain.RPCErr
+	var merr waddrmgr.ManagerError
 	switch {
+	case errors.As(err, &merr) && merr.ErrorCode == waddrmgr.ErrLocked:
+		return "locked"
 	case errors.As(err, &ise):
 		return "insufficient"
 	case strings.Contains(err.Error(), "not eligible for spending"):
@@ -972,7 +994,6 @@ func (r *runner) opCreate(kv map[string]string) (string, string) {
 			return "bad-op", ""
 		}
 		r.fc.mu.Lock()
-		nlog := len(r.fc.sendLog)
 		if q.notify == "fail" {
 			r.fc.notifyFailIn = "reliablyPublishTransaction"
 		}
@@ -987,38 +1008,55 @@ func (r *runner) opCreate(kv map[string]string) (string, string) {
 		r.fc.setDefaultAnswer("")
 		r.fc.mu.Lock()
 		r.fc.notifyFailIn = ""
-		var sent *chainhash.Hash
-		if len(r.fc.sendLog) > nlog {
-			sent = &r.fc.sendLog[len(r.fc.sendLog)-1]
-		}
 		r.fc.mu.Unlock()
-		_ = sent
 		signed = err == nil
 	}
+	// what the backend saw during this request (only api=send talks to it)
+	calls := r.absorbCalls()
+	sentField := ""
+	if q.api == "send" {
+		sentField = fmt.Sprintf(" sent=%d", len(calls))
+	}
+	// C20: whatever the backend accepted just now must still be recorded, whether or not the wallet returned an error
+	acceptedViols := r.forgottenAccepted(calls, "SendOutputs")
 
 	if err != nil {
 		cls := classifyCreateErr(err)
-		viol := ""
+		viols := acceptedViols
 		if cls == "publish" {
-			// C20: a failed broadcast of a brand-new transaction must leave balance, spendable set and unconfirmed
-			// set exactly as before the attempt.
+			// C20: a FAILED broadcast of a brand-new transaction must leave balance, spendable set and unconfirmed
+			// set exactly as before the attempt.  (If the backend accepted the transaction the broadcast did not fail,
+			// whatever the wallet returned: then the clause above applies instead.)
+			backendHasIt := false
+			for _, c := range calls {
+				if r.backend[c.hash] != nil {
+					backendHasIt = true
+				}
+			}
 			after, serr := r.snap()
 			if serr != nil {
 				return "harness-error " + serr.Error(), ""
 			}
-			if after.String() != before.String() {
+			if !backendHasIt && after.String() != before.String() {
 				key := "SendOutputs.rejected-not-restored"
 				if q.notify == "fail" {
 					key = "reliablyPublishTransaction.notify-received-failure"
 				}
-				viol = fmt.Sprintf("C20 key=%s: failed send changed the wallet: before {%s} after {%s}", key, before, after)
+				viols = append(viols, fmt.Sprintf("C20 key=%s: failed send changed the wallet: before {%s} after {%s}", key, before, after))
+			}
+			return "err=" + cls + sentField, strings.Join(viols, "; ")
+		}
+		if cls == "insufficient" {
+			// C07 (wallet level): insufficient funds only if the eligible coins cannot cover outputs + required fee
+			if v := r.coveredAlthoughInsufficient(q, outs, chgKind); v != "" {
+				viols = append(viols, v)
 			}
 		}
-		return "err=" + cls, viol
+		return "err=" + cls, strings.Join(viols, "; ")
 	}
 
 	// ---- success: describe the transaction in ledger terms and evaluate the C06 sentences on it
-	var viols []string
+	viols := acceptedViols
 	ti := &txInfo{name: q.name, tx: tx, hash: tx.TxHash(), height: -1, created: true}
 	scripts := map[string]bool{}
 	for _, c := range ownCoins {
@@ -1082,9 +1120,16 @@ func (r *runner) opCreate(kv map[string]string) (string, string) {
 			viols = append(viols, fmt.Sprintf("C06 key=%s.selected-ineligible-accepted: explicitly selected %s is not eligible but the request succeeded", q.api, s))
 		}
 	}
+	viols = append(viols, r.reusedAfterAccepted(tx)...)
 	if signed {
+		// no watch-only account exists in this engine: every result of simple / send must be fully signed
 		if bad := r.verifySigs(tx); bad != "" {
-			viols = append(viols, fmt.Sprintf("C06 key=%s.bad-signature.%s: an input does not verify under StandardVerifyFlags", q.api, bad))
+			if r.wLocked {
+				viols = append(viols, fmt.Sprintf("C06 key=create.unsigned-result-while-locked: %s returned a transaction for a regular (non-watch-only) account while the wallet was locked, and its %s input does not verify under StandardVerifyFlags (sigScript %d bytes, %d witness items): the request must be refused or the result signed",
+					q.api, bad, len(tx.TxIn[0].SignatureScript), len(tx.TxIn[0].Witness)))
+			} else {
+				viols = append(viols, fmt.Sprintf("C06 key=%s.bad-signature.%s: an input does not verify under StandardVerifyFlags", q.api, bad))
+			}
 		}
 	}
 
@@ -1114,7 +1159,7 @@ func (r *runner) opCreate(kv map[string]string) (string, string) {
 		if intendedClass(q.ans) == "rejected" || q.notify == "fail" {
 			viols = append(viols, "C20 key=SendOutputs.failed-broadcast-returned-ok: the backend refused the transaction but SendOutputs returned no error")
 		}
-		reply += " pub=ok"
+		reply += " pub=ok" + sentField
 	}
 	return reply, strings.Join(viols, "; ")
 }
